@@ -120,3 +120,26 @@ Theorem C09_hc_mid_bad_sizes :
     hr_ret (compress_HC_fastReset_mid c src srcSize cap) = 0.
 Proof. exact compress_HC_fastReset_mid_bad_size. Qed.
 Print Assumptions C09_hc_mid_bad_sizes.
+
+(* HC levels 3-9 (hash chain), on a context with any history: with a capacity below LZ4_compressBound nothing is
+   written beyond dst + dstCapacity (wild-copy slack and abandoned attempts included) and a positive result
+   is <= dstCapacity; with a capacity of at least LZ4_compressBound(srcSize) the call succeeds and nothing
+   is written beyond LZ4_compressBound(srcSize). *)
+From LZ4V Require Model.HcChain Proofs.HcChainSearch Proofs.HcChainSound Proofs.HcChainCap Proofs.HcChainParser.
+From LZ4V Require Import Model.HcChainApi Proofs.HcChainApiSound.
+
+Theorem C09_hc_chain_capacity :
+  forall c src srcSize cap cLevel,
+    cc_ok c -> src_ok src -> 0 <= srcSize < 2147483648 -> 0 <= cap -> chain_level cLevel = true ->
+    let r := compress_HC_fastReset_chain c src srcSize cap cLevel in
+    (cap < compressBound srcSize -> cr_hw r <= cap /\ cr_ret r <= cap) /\
+    (compressBound srcSize <= cap -> srcSize <= LZ4_MAX_INPUT_SIZE -> 0 < cr_ret r /\ cr_hw r <= compressBound srcSize).
+Proof. exact chain_capacity. Qed.
+Print Assumptions C09_hc_chain_capacity.
+
+(* Non-vacuity: capacity 20 < bound 76 succeeds with 17 bytes and a high-water mark of 17; capacity 12 fails *)
+Example C09_hc_chain_nonvacuous :
+  let l := concat (repeat [97; 98; 99; 100] 13) ++ [1; 2; 3; 4; 5; 6; 7; 8] in
+  (let r := compress_HC_chain (mem_of_list 0 l) 60 20 3 in (cr_ret r, cr_hw r)) = (17, 17) /\
+  (let r := compress_HC_chain (mem_of_list 0 l) 60 12 3 in cr_ret r) = 0 /\ compressBound 60 = 76 /\ chain_level 3 = true.
+Proof. vm_compute. repeat split; reflexivity. Qed.
